@@ -21,6 +21,9 @@ func newPublishQOS2Transaction(client *Client, msgID uint16) *publishQOS2Transac
 				client.groupCtx, client.cfg.RetryDelay, client.cfg.RetryCount,
 				func(lastPkt interface{}) error {
 					tLog.Debug("Resend.")
+					if dupPkt, ok := lastPkt.(pkts.PacketWithDUP); ok {
+						dupPkt.SetDUP(true)
+					}
 					return client.send(lastPkt.(pkts.Packet))
 				},
 				func() {
